@@ -5,6 +5,12 @@ NOTES = ("Contract-based deductive verification of the real Python source (pyvc,
 PYVC_NOTE = ("Trusted: the pyvc executor's encoding of Python/NumPy semantics (cross-checked against CPython, see DESIGN 1.8), z3/cvc5, "
              "the axioms listed in evidence.assumptions, and the surrounding code named 'Out' in DESIGN section 3.")
 CLAIMED = {
+    "C04": ("Unbounded proof that conflict detection is exact: RangeSet.intersects (two-pointer loop invariant) and range_lists_overlap return True "
+            "iff two ranges share a byte, RangeSet.__or__ covers exactly the bytes of both operands; block-job geometry for BLOCKDEP: block "
+            "numbering of get_offset_block_coords and that the first-job IFM volume contains the receptive field of its OFM block (per accelerator).",
+            PYVC_NOTE + " get_wait_dependency, calc_blockdep's search loop, MemoryAccessSet and the hardware queue model are not yet under contract "
+            "in this revision; the hardware execution model is an axiom set (DESIGN 3/C04).",
+            "contract-based deductive verification (loop invariants, heap model, ghost permutation lemmas; bounded refutation for code leaving the subset)", "DESIGN.md 3/C04"),
     "C05": ("Unbounded proofs with loop invariants over a symbolic heap: GreedyAllocator.alloc keeps current_allocs sorted/disjoint, places the new "
             "range aligned and disjoint from every live entry and tracks memory_required exactly; HillClimb allocate_lr terminates (variant) "
             "and avoids every allocated neighbour; iteration bound / memory limit resolution of the constructor (slice). Remaining allocator "
@@ -64,6 +70,6 @@ NOT_APPLICABLE = {
     "C13": "totality of the whole compiler; per-function no_exception obligations do not decide it (DESIGN 4)",
     "C14": "2-safety over process histories and global mutable state (DESIGN 4)",
     "C16": "pipeline-emergent placement and natural-language report text (DESIGN 4)",
-    "C02": PLANNED, "C04": PLANNED, "C08": PLANNED, 
+    "C02": PLANNED, "C08": PLANNED, 
     
 }
